@@ -718,8 +718,10 @@ def write_evidence(run, mod, total_obl=0, discharged=0, rc=0, failed=False):
         cov["explanation"] = (cov.get("explanation") or "") + " CHECKER FAILED: " + "; ".join(run.checker_errors)
     ev = {"property_id": run.pid, "tier": run.tier, "seed": run.seed, "level": level, "coverage": cov,
           "assumptions": run.assumptions, "wall_s": round(time.time() - run.t0, 2), "violations": len({(v['fn'], v['clause']) for v in run.violations})}
-    os.makedirs(os.path.join(ROOT, "evidence"), exist_ok=True)
-    with open(os.path.join(ROOT, "evidence", f"{run.pid}.json"), "w") as f:
+    # evidence/<id>.json describes runs against /repo itself; a developer run against another tree (VERIF_REPO) writes next to the replays
+    edir = os.path.join(ROOT, "evidence") if os.path.realpath(REPO) == "/repo" else os.path.join(ROOT, "replays", "other-tree-evidence")
+    os.makedirs(edir, exist_ok=True)
+    with open(os.path.join(edir, f"{run.pid}.json"), "w") as f:
         json.dump(ev, f, indent=1, default=str)
 
 
